@@ -365,7 +365,12 @@ fn ops_clonable<T: Tracked + Clone>(name: &'static str, readback: fn(u32) -> u32
         name,
         // the three ways of storing a clonable value, in turn
         set: |m, v| {
-            match v % 4 {
+            match v % 5 {
+                4 => {
+                    // taken apart and put together again
+                    let id = m.header().id;
+                    *m = Message::from_parts(des::net::message::Header::default(), Some(T::mk(v))).id(id);
+                }
                 0 => m.set_content(T::mk(v)),
                 1 => m.set_body(des::net::message::Body::new(T::mk(v))),
                 2 => m.set_body(des::net::message::Body::new_with_len(T::mk(v), T::exp_len(v))),
